@@ -20,7 +20,8 @@ fn tree(r: &mut Rng, depth: usize, floats: bool, instr: &[String]) -> SItem {
             0 => SItem::Int(if r.bool() { *r.pick(&[0, 1, -1, 7, 42, i32::MAX, i32::MIN, -1000, 16777217, i32::MIN + 1]) } else { crate::gen::int(r, crate::gen::Vals::Mixed) }),
             1 => SItem::Bool(r.bool()),
             2 => SItem::Name(r.pick(&NAMES).to_string()),
-            3 | 4 => SItem::Instr(r.pick(instr).clone()),
+            3 => SItem::Instr(r.pick(instr).clone()),
+            4 => SItem::Instr(if r.chance(1, 3) { r.pick(&CUSTOM_INSTRUCTIONS).to_string() } else { r.pick(instr).clone() }),
             _ => SItem::Float(fb(*r.pick(&[0.0f32, -0.0, 1.0, 2.5, -3.125, 0.1, 1e-5, 123456.79, 1e30, -1e-40, f32::MAX, f32::INFINITY, f32::NEG_INFINITY, f32::NAN, 0.9994, 0.9996]))),
         }
     } else {
@@ -65,8 +66,17 @@ fn check_roundtrip(ctx: &mut Ctx, path: &str, items: &[SItem], text: &str, is: &
     }
 }
 
+const CUSTOM_INSTRUCTIONS: [&str; 6] = ["MyInstruction", "my.instr", "X", "foo-bar", "Integer.plus", "ÄÖ"];
+
 pub fn run(ctx: &mut Ctx) {
-    let (mut is, names) = new_iset();
+    let (mut is, mut names) = new_iset();
+    // instructions registered by the embedding program (README: InstructionSet::add) are
+    // registered instructions too
+    for n in CUSTOM_INSTRUCTIONS.iter() {
+        is.add(n.to_string(), pushr::push::instructions::Instruction::new(|_s: &mut PushState, _c: &InstructionCache| {}));
+        names.push(n.to_string());
+    }
+    names.sort();
     let cache = sorted_cache(&is);
     let n = ctx.n(40000, 1000000);
     for k in 0..n as u64 {
